@@ -35,6 +35,16 @@ pub fn decompress(
         compressed
     };
 
+    // The size comes from an untrusted header. Every input byte produces at most 128
+    // output bytes (a control byte below 0x80 stands for up to 128 zeros), so a larger
+    // size cannot belong to this data and must not drive the allocation below
+    if decompressed_size > data.len().saturating_mul(128) {
+        return Err(Error::compression(format!(
+            "RLE data of {} bytes cannot decompress to {decompressed_size} bytes",
+            data.len()
+        )));
+    }
+
     // Pre-fill with zeros
     let mut decompressed = vec![0u8; decompressed_size];
 
